@@ -734,7 +734,15 @@ impl<'a> Parser<'a> {
             let op = self.current().clone();
             self.next()?;
 
-            let rhs = if op == Token::LeftSquareParentheses {
+            let rhs = if (op == Token::Keyword(Keyword::In) || op == Token::Keyword(Keyword::NotIn)) && self.current() == &Token::LeftParentheses {
+                // The list of values, which can consist of a single value
+                let location = self.current_location();
+                self.next()?;
+
+                let mut values = Vec::new();
+                self.parse_list(Token::RightParentheses, &mut values)?;
+                ParserExpressionTree::new(location, ParserExpressionTreeData::Tuple { values })
+            } else if op == Token::LeftSquareParentheses {
                 // The index is a complete expression, delimited by the closing bracket
                 self.parse_expression_internal()?
             } else {
